@@ -469,6 +469,8 @@ class FaultyWalkUnit(WalkUnit):
         self.C, self.W, self.Rv = empty, empty, empty
         self.requests = 0
         self.responses = []
+        self.exchanges = []
+        self.cur_roots = None        # step units: the user roots of the columns requested in this iteration
         self.roles = loop_roles(interp.program)
         interp.on_yield = None
         interp.loop_clauses[(T_MULTIWALK, 0)] = LoopClause(self.havoc, self.invariant, self.variant,
@@ -497,12 +499,49 @@ class FaultyWalkUnit(WalkUnit):
                     count = c
                     break
         out = []
+        answers = []
         for j in range(count):
             o = ctx.fresh_oid("answer_oid%d" % j)
             v = self.xv.fresh(ctx, "answer_val%d" % j)
             self.Rv = z3.Store(self.Rv, o.e, z3.BoolVal(True))
             out.append(varbind(rt, interp, o, v))
+            answers.append((o, v))
+        self.exchanges.append({"bulk": pdu.cls.name != "GetNextRequest", "qs": qs, "answers": answers,
+                               "roots": list(self.cur_roots) if self.cur_roots is not None else list(qs)})
         return out
+
+    def stalled(self, interp):
+        """(guard, stalled) for the last exchange of this path segment, or None.
+        guard  : the answer's OIDs are pairwise distinct (two bindings with one OID and different values make the
+                 client's sorted() compare x690 values: a TypeError that is a remark, not a claim)
+        stalled: GETNEXT - some binding before the first endOfMibView does not lie behind the OID it answers;
+                 GETBULK - for some column, the OID the walk would continue from (last one before the first
+                 endOfMibView, still inside its root) does not lie behind the requested OID (the weaker reading of
+                 'does not advance beyond the one requested': an earlier binding of a column that is out of order is
+                 not held against the agent as long as the column's last binding advances)."""
+        if not self.exchanges:
+            return None
+        ex = self.exchanges[-1]
+        rt, oidt = self.rt, self.rt.oid
+        eom = rt.class_id(get_cls(rt, interp, "puresnmp.pdu:EndOfMibView"))
+        qs, ans, roots = ex["qs"], ex["answers"], ex["roots"]
+        k, c = len(qs), len(ans)
+        oe = [a[0].e for a in ans]
+        guard = z3.Distinct(*oe) if len(oe) > 1 else z3.BoolVal(True)
+        is_eom = [rt.f_cls(a[1].e) == eom for a in ans]
+        vis = []
+        for t in range(c):
+            vis.append(z3.And(*[z3.Not(is_eom[s]) for s in range(t + 1)]))
+        cases = []
+        if not ex["bulk"]:
+            for t in range(min(k, c)):
+                cases.append(z3.And(vis[t], z3.Not(oidt.lt(qs[t].e, oe[t]))))
+        else:
+            for t in range(c):
+                i = t % k
+                is_last = vis[t] if t + k >= c else z3.And(vis[t], z3.Not(vis[t + k]))
+                cases.append(z3.And(is_last, oidt.below(oe[t], roots[i].e), z3.Not(oidt.lt(qs[i].e, oe[t]))))
+        return lift_bool(guard), lift_bool(z3.Or(*cases) if cases else z3.BoolVal(False))
 
     def known_now(self):
         return []
@@ -527,6 +566,10 @@ class FaultyWalkUnit(WalkUnit):
                     lift_bool(z3.ForAll([x], z3.Implies(z3.Select(self.C, x), z3.Or(*[below(x, r) for r in roots]))))))
         out.append(("witnesses-were-continued-from-and-revealed",
                     lift_bool(z3.ForAll([x], z3.Implies(z3.Select(self.W, x), z3.And(z3.Select(self.C, x), z3.Select(self.Rv, x)))))))
+        if when in ("entry", "preserve"):
+            st = self.stalled(interp)
+            if st is not None:
+                out.append(("the-walk-goes-on-only-after-an-answer-that-advances", Not(And(st[0], st[1]))))
         return out
 
     def havoc(self, interp, frame):
@@ -542,6 +585,8 @@ class FaultyWalkUnit(WalkUnit):
                 lval = self.xv.fresh(ctx, "last_val_r%d" % i)
                 un.append((r, Obj(walkrow, {"value": varbind(rt, interp, last, lval), "unfinished": True})))
         self._havoc_locals(frame, un)
+        self.exchanges = []
+        self.cur_roots = [u[0] for u in un]
         self._witness_pending = un[0][1].fields["value"][0] if un else None
 
     def variant(self, interp, frame):
@@ -589,10 +634,18 @@ class FaultyWalkUnit(WalkUnit):
         except PyExc as pe:
             exc = pe.obj
         base = oname("C03", self.target, "exit", "")
+        faulty = get_cls(rt, interp, "puresnmp.exc:FaultySNMPImplementation")
+        st = self.stalled(interp)
+        if st is not None:
+            hit = And(st[0], st[1])
+            if self.errors == "strict":
+                ctx.check(base + "strict-mode:an-answer-that-does-not-advance-ends-the-walk-with-FaultySNMPImplementation",
+                          Or(Not(hit), exc is not None and exc_is(exc, faulty)))
+            else:
+                ctx.check(base + "lenient-mode:an-answer-that-does-not-advance-ends-the-walk-normally", Or(Not(hit), exc is None))
         if exc is None:
             ctx.check(base + "ends-normally", True)
             return "returns"
-        faulty = get_cls(rt, interp, "puresnmp.exc:FaultySNMPImplementation")
         # (any exception ends the operation; which ones may leave is only constrained for lenient mode.
         #  Remark, not claimed: an agent answering two roots with the same OID but different values makes
         #  sorted() compare x690 values and raise TypeError.)
